@@ -99,7 +99,11 @@ static const char *c39_psp_arg[C39_PSP_MAX]; static int c39_psp_ok[C39_PSP_MAX];
 static struct sockaddr_storage c39_psp_out[C39_PSP_MAX]; static int c39_psp_len[C39_PSP_MAX];
 int evutil_parse_sockaddr_port(const char *str, struct sockaddr *out, int *outlen)
 {
+#ifdef C39_AF     /* outcome fixed per obligation (0 fails, 1 IPv4, 2 IPv6): keeps the address length a constant for symex */
+	int kind = C39_AF, i = c39_psp_calls;
+#else
 	int kind = (int)vp_range(0, 2), i = c39_psp_calls;
+#endif
 	VP_ASSERT(i < C39_PSP_MAX, "harness: too many address parses");
 	c39_psp_calls++;
 	c39_psp_arg[i] = str; c39_psp_ok[i] = 0;
